@@ -78,3 +78,13 @@ Definition check_check_use_atomic (hs : list handler) (first : list (string * bo
   forallb perm_innermost hs
   && forallb (fun h => negb (h_get_paths h) || match assoc_s (h_name h) first with Some b => b | None => false end) hs
   && forallb (fun nb => snd nb) first.
+
+(* the PathPermissions wrapper asks the CURRENT user for the entry on every call: the object whose flag it tests is bound
+   once, by `await connection.user.get_permissions(virtual_path)`; of the connection it reads nothing but that and
+   `response`, stores nothing; the only other uses of `connection` are passing it on to get_paths and to the wrapped
+   handler (no per-connection memo of earlier look-ups) *)
+Definition check_pathperm_lookup (reads writes other : list string) (direct : bool) : bool :=
+  direct
+  && subset_s reads ["user.get_permissions"; "user"; "response"]
+  && nil_b writes
+  && subset_s other ["cls.get_paths(connection, rest)"; "f(cls, connection, rest, *args)"].
